@@ -129,7 +129,7 @@ def one(job):
         if r.returncode != 0:
             return {"desc": desc, "status": "killed-by-tests"}
         fired, errs = [], []
-        for pid in PROPS:
+        for pid in (ONLY or PROPS):
             try:
                 c = subprocess.run([sys.executable, "-m", "sa.check", pid, "--root", d, "--no-evidence"], cwd=VERIF, capture_output=True, text=True, timeout=300)
             except subprocess.TimeoutExpired:
@@ -145,8 +145,18 @@ def one(job):
         shutil.rmtree(d, ignore_errors=True)
 
 
+ONLY = None
+
+
 def main():
+    global ONLY
     rel = sys.argv[1]
+    if "--checks" in sys.argv:
+        ONLY = sys.argv[sys.argv.index("--checks") + 1].split(",")
+    recheck = None
+    if "--recheck" in sys.argv:
+        # only the mutants a previous scan (its --out file) left as SURVIVED / analysis-error
+        recheck = {r["desc"] for r in json.load(open(sys.argv[sys.argv.index("--recheck") + 1])) if r["status"] in ("SURVIVED", "analysis-error")}
     mx = int(sys.argv[sys.argv.index("--max") + 1]) if "--max" in sys.argv else 100000
     outp = sys.argv[sys.argv.index("--out") + 1] if "--out" in sys.argv else None
     only_lines = None
@@ -158,6 +168,8 @@ def main():
     for desc, idx, kind in sites(tree):
         ln = int(desc.split()[0][1:])
         if only_lines and not (only_lines[0] <= ln <= only_lines[1]):
+            continue
+        if recheck is not None and desc not in recheck:
             continue
         jobs.append((rel, desc, idx, kind))
     jobs = jobs[:mx]
